@@ -172,7 +172,9 @@ func cmdCheck(args []string) int {
 			}
 		}
 		for _, r := range out.Results {
-			seenNames[cfg.Name+"|"+r.Obl.Name] = true
+			if !strings.Contains(r.Obl.Name, "/auto:") { // inferred invariants are not part of the specified obligation set
+				seenNames[cfg.Name+"|"+r.Obl.Name] = true
+			}
 			oe := oblEvidence{Name: r.Obl.Name, Class: r.Obl.Class, Config: cfg.Name, Status: r.Status, Solver: r.Solver, Ms: r.Ms, VCBytes: r.VCBytes}
 			obls = append(obls, oe)
 			if r.Obl.IsCover {
